@@ -144,6 +144,22 @@ def file_cases(rng, q):
                             ops += ["poll", "peerdata %d" % n, "poll"]
                         ops += ["peereof", "poll", "rstart 0 %d 11" % (total + 1), "poll", "rstart 1 4 12", "poll"]
                         cases.append(("case flav=file", ops))
+    # segments separated by an urgent byte: one read attempt of a ReadAll sees several successful kernel reads in a row
+    # (one urgent byte per connection: a second one turns the first into ordinary stream data, kernel behaviour)
+    for segs in ((4, 4), (2, 8), (1, 1), (7, 3), (1, 300)):
+        total = sum(segs)
+        for early in (0, 1):
+            ops = []
+            if not early:
+                ops += ["rstart 1 %d 10" % total, "poll"]
+            for j, n in enumerate(segs):
+                if j:
+                    ops.append("peeroob")
+                ops.append("peerdata %d" % n)
+            if early:
+                ops.append("rstart 1 %d 10" % total)
+            ops += ["poll", "poll", "peerdata 3", "rstart 1 3 11", "poll", "peereof", "poll", "rstart 0 4 12", "poll"]
+            cases.append(("case flav=file", ops))
     # long streams
     for _ in range(3 if q else 30):
         total = rng.choice([5000, 70000, 200000] if not q else [5000, 70000])
